@@ -123,6 +123,19 @@ func jwkValue(kind string) interface{} {
 		return map[string]interface{}{"kty": "OKP", "crv": "Ed25519", "x": "o1bG1U7G3CNbtALMafUiFOq8ODraTyVTmPtRDO1QUWg"}
 	case "rsa":
 		return rsa
+	case "okp_x25519":
+		return map[string]interface{}{"kty": "OKP", "crv": "X25519", "x": "o1bG1U7G3CNbtALMafUiFOq8ODraTyVTmPtRDO1QUWg"}
+	case "okp_nocrv":
+		return map[string]interface{}{"kty": "OKP", "x": "o1bG1U7G3CNbtALMafUiFOq8ODraTyVTmPtRDO1QUWg"}
+	case "okp_nox":
+		return map[string]interface{}{"kty": "OKP", "crv": "Ed25519"}
+	case "okp_crv_empty":
+		return map[string]interface{}{"kty": "OKP", "crv": "", "x": "o1bG1U7G3CNbtALMafUiFOq8ODraTyVTmPtRDO1QUWg"}
+	case "ec_crv_empty":
+		m := del(ec, "crv")
+		m["crv"] = ""
+
+		return m
 	case "nokty":
 		return del(ec, "kty")
 	case "nocrv":
@@ -232,6 +245,12 @@ func endpointValue(kind string) (interface{}, bool) {
 		return "", true
 	case "str_bad":
 		return bad, true
+	case "str_blank_front":
+		return " " + ok1, true
+	case "str_newline_end":
+		return "https://svc.example \n", true
+	case "list_blank_front_second":
+		return []interface{}{ok1, "\t" + ok1}, true
 	case "list_ok":
 		return []interface{}{ok1, ok2, "https://b.example/y"}, true
 	case "list_one":
@@ -586,7 +605,7 @@ func randomRule(r *rand.Rand) rCase {
 		k := rKey{ID: randomID(r), Extra: pickS(r, "none", 0.85, "controller", "foo", "publicKeyMultibase", "foo_null", "controller_null", "other_material_null", "purposes_null")}
 		k.Type = pickS(r, allKeyTypes[r.Intn(len(allKeyTypes))], 0.9, "Unknown2099", "missing", "empty", "number", "null")
 		k.Material = pickS(r, "jwk", 0.6, "b58", "b58", "both", "none")
-		k.Jwk = pickS(r, "ec", 0.5, "okp", "rsa", "nokty", "nocrv", "nox", "rsa_non", "rsa_noe", "notobject")
+		k.Jwk = pickS(r, "ec", 0.5, "okp", "okp_x25519", "rsa", "nokty", "nocrv", "nox", "rsa_non", "rsa_noe", "notobject", "okp_nocrv", "okp_nox", "okp_crv_empty", "ec_crv_empty")
 		k.PP.Set = []string{}
 
 		if r.Float64() < 0.85 {
@@ -615,7 +634,7 @@ func randomRule(r *rand.Rand) rCase {
 		}
 
 		s.Endpoint = pickS(r, "str_ok", 0.3, "str_did", "list_ok", "list_one", "obj", "list_objs", "list_mixed_ok",
-			"absent", "null", "str_empty", "str_bad", "list_bad_first", "list_bad_second", "list_bad_last",
+			"absent", "null", "str_empty", "str_bad", "str_blank_front", "str_newline_end", "list_blank_front_second", "list_bad_first", "list_bad_second", "list_bad_last",
 			"list_empty_second", "list_mixed_bad_after_obj")
 
 		return rCase{Kind: "svc", S: &s, Wrap: pickS(r, "add", 0.6, "replace"), Dup: r.Float64() < 0.07}
